@@ -94,7 +94,7 @@ pub fn deliver_ctx<'de>(ctx: &mut ExecutionContext<'de>, consumer: Consumer, byt
             let owned = std::mem::replace(ctx, ExecutionContext::new(&ctx.scheme().clone()));
             let mut c = wirefilter_ffi::ExecutionContext::from(owned);
             wirefilter_ffi::wirefilter_clear_last_error();
-            let ok = wirefilter_ffi::wirefilter_deserialize_json_to_execution_context(&mut c, bytes.as_ptr(), bytes.len());
+            let ok = crate::seams::with_caller_buffer(bytes, |p, n| wirefilter_ffi::wirefilter_deserialize_json_to_execution_context(&mut c, p, n));
             *ctx = c.into();
             if ok {
                 Ok(())
